@@ -258,6 +258,7 @@ theorem step_runScript {env : Env} {n : Nat} (S : Spec env n) :
   split
   · exact G.refl hp
   · exact ⟨G.refl hp, by simpa [ScriptOk] using hsc⟩
+  · exact S.runScript _ _ hp (by simpa [ScriptOk] using hsc)
   · -- safeString
     rename_i s k
     have g := G_bracket_step PP.startSafeOverride p (·.w s) hp (start_safeOverride hp) (fun q hq => G_w hq s)
